@@ -65,6 +65,25 @@ def build(m):
                              'INSIDE_GROUP(parent, child)', 'child.rank > parent.rank'],
                    ensures=['ALL_KIDS_OK()', 'RANKED()', 'KIDS_UPTO(child)', FRAME.replace('self', 'parent')],
                    modifies=['F:ParseToken.children'], prop=P))
+    # second view of eval_new_child: the precedence rule among the children of one parent, quantifier-free
+    # (a counterexample to it is then found by the solver instead of timing out under the tree invariants)
+    m.add(Contract(MOD + ':eval_new_child#precedence', [('parent', PT), ('child', PT)],
+                   requires=['PT_OK(parent)', 'PT_OK(child)', 'len(parent.children) > 0',
+                             'PT_OK(parent.children[len(parent.children) - 1])',
+                             'parent.children[len(parent.children) - 1].start <= child.start'],
+                   assume_callee_pre=True,
+                   ensures=[
+                            # C16, among the children of one parent: a match behind the last child is appended; on a
+                            # conflict the higher precedence wins and a tie goes to the earlier match (the last child)
+                            ('implies(old(parent.children)[len(old(parent.children)) - 1].end <= child.start, '
+                             'len(parent.children) == len(old(parent.children)) + 1 and '
+                             'parent.children[len(parent.children) - 1] == child)', ['C16', 'C02']),
+                            ('implies(not (LASTC.end <= child.start) and not INSIDE_GROUP(LASTC, child) '
+                             'and not (LASTC.parse_end <= child.start and child.end <= LASTC.end), '
+                             'len(parent.children) == len(old(parent.children)) and parent.children[len(parent.children) - 1] == '
+                             '(child if LASTC.cls.precedence < child.cls.precedence else LASTC))'.replace(
+                                 'LASTC', 'old(parent.children)[len(old(parent.children)) - 1]'), ['C16', 'C02'])],
+                   modifies=['F:ParseToken.children'], prop=P))
     m.add(Contract(MOD + ':eval_tokens', [('x', PT), ('y', PT), ('token_buffer', TList(PT))], returns=PT,
                    requires=['ALL_KIDS_OK()', 'RANKED()', 'KIDS_BEFORE(y)', 'x.start <= y.start', 'y.rank > x.rank'],
                    ensures=[
@@ -75,8 +94,9 @@ def build(m):
                        # nesting
                        'implies(not (x.end <= y.start) and INSIDE_GROUP(x, y), result == x)',
                        # conflict: higher precedence wins, ties go to the earlier match
-                       'implies(not (x.end <= y.start) and not INSIDE_GROUP(x, y) and not (x.parse_end <= y.start and y.end <= x.end), '
-                       'result == (x if x.cls.precedence >= y.cls.precedence else y))',
+                       # (C02 as well: code spans, autolinks and raw HTML bind equally in CommonMark 6.1 - the leftmost wins)
+                       ('implies(not (x.end <= y.start) and not INSIDE_GROUP(x, y) and not (x.parse_end <= y.start and y.end <= x.end), '
+                        'result == (x if x.cls.precedence >= y.cls.precedence else y))', P + ['C02']),
                        'result == x or result == y', 'ALL_KIDS_OK()', 'RANKED()', 'KIDS_UPTO(y)',
                        FRAME.replace('self', 'x'),
                    ],
@@ -88,7 +108,7 @@ def build(m):
                    requires=['PT_OK(x)', 'PT_OK(y)', 'x.start <= y.start'], assume_callee_pre=True,
                    ensures=[
                        ('implies(not (x.end <= y.start) and not INSIDE_GROUP(x, y) and not %s, '
-                        'result == (x if x.cls.precedence >= y.cls.precedence else y))' % CASE3, 'C16'),
+                        'result == (x if x.cls.precedence >= y.cls.precedence else y))' % CASE3, ['C16', 'C02']),
                        # the same rule where y lies inside x but outside its parse group (the code
                        # ignores y there whatever its precedence): known finding relation-case-3
                        ('implies(not (x.end <= y.start) and not INSIDE_GROUP(x, y) and %s, '
